@@ -261,12 +261,22 @@ def run(chk, replay=None):
 
         rejected = {}
         for rj in tv.rejects:
+            rejected.setdefault(rj[1], []).append(rj[0])
+        reported: dict = {}
+        for rj in tv.rejects:
             clause, rid = rj[0], rj[1]
             info = rj[2] if len(rj) > 2 else ()
-            rejected.setdefault(rid, []).append(clause)
             rec = recs[rid - 1]
+            # one verdict per record and concern: the clauses of one record are consequences of
+            # one another (an attribute that is not the image also breaks AssumptionsKept, ...);
+            # the first clause in specification order names the finding, the rest is in the replay
+            concern = "receiver" if clause == "OriginalUnchanged" else "drift" if clause in ("WarnsExactly", "KinInjective") else "result"
+            if concern != "drift":
+                if (rid, concern) in reported:
+                    continue
+                reported[(rid, concern)] = clause
             hist = history_of(out, rec)
-            case = {"model": m, "config": out["config"], "history": hist, "clause": clause, "info": repr(info)}
+            case = {"model": m, "config": out["config"], "history": hist, "clause": clause, "info": repr(info), "all_clauses": rejected[rid]}
             if rec["op"] == "Rename":
                 mid = rec["mid"]
                 if clause == "WarnsExactly":
@@ -304,6 +314,8 @@ def run(chk, replay=None):
             hist = history_of(out, rec)
             case = {"model": m, "config": out["config"], "history": hist, "mismatch": mm}
             kind = mm["kind"]
+            if kind in ("definition", "receiver-modified") and (mm["rec"], "receiver" if kind == "receiver-modified" else "result") in reported:
+                continue  # already reported for this record through the trace specification
             if kind == "definition":
                 chk.violation(f"rename_symbols:{mm['mid']}:{'+'.join(mm['attributes'])}-not-xreplace-of-original",
                               f"model {m}: after {json.dumps(hist)} attributes {mm['attributes']} differ from xreplace of the receiver by the same symbol map", case)
@@ -322,7 +334,7 @@ def run(chk, replay=None):
                 if mm["rec"] not in rejected and mm["rec"] not in drifted:
                     raise Machinery(f"binding inconsistent for {m}: replay found {mm} but Trace_ModelOps accepted record {mm['rec']}")
             elif kind == "warnings":
-                chk.spec_drift(f"rename_symbols warnings differ from the specification for map '{mm['mid']}' on model {m}: spec {mm['spec']} impl {mm['impl']}")
+                chk.spec_drift(f"rename_symbols warnings differ from the specification for map '{mm['mid']}' on model {m}: spec {[real_name(out, x) for x in mm['spec']]} impl {mm['impl']}")
             elif kind == "aliasing":
                 chk.spec_drift(f"rename_symbols('{mm['mid']}') on model {m}: result is{'' if mm['impl'] else ' not'} the original object, specification says the opposite")
             else:
